@@ -583,7 +583,10 @@ def gen_newreq_program(rng):
     k = rng.randint(2, 4)
     p.sources = list(range(k + 1))
     # task 0 = A: read r0; if r0 == 1 require B.   task 1 = B: requires C_1..C_k (directly or through a middle task).
-    p.tasks[0] = ('R', 0, 0, ('I', ('l', 2), ('Q', 1, (0 if rng.random() < 0.85 else 2), ('T', ('a',))), ('T', ('k', 5))))
+    # what A does AFTER the new require returned (the nested build must have restored A as the executing task):
+    #   nothing / another read / another require / an overlapping write (violation) / a require that closes a cycle (violation)
+    tailkind = rng.choice(['none', 'read', 'read', 'require', 'overlap', 'cycle'])
+    p.tasks[0] = None
     tid = 2
     body = ('T', ('a',))
     cs = []
@@ -602,6 +605,23 @@ def gen_newreq_program(rng):
             head = m
         body = ('Q', head, (0 if rng.random() < 0.85 else 2), body)
     p.tasks[1] = body
+    tail = ('T', ('a',))
+    if tailkind == 'read':
+        src = 40; p.sources.append(src); tail = ('R', src, 0, ('T', ('a',)))
+    elif tailkind == 'require':
+        e = tid; tid += 1; src = 40; p.sources.append(src)
+        p.tasks[e] = ('R', src, 0, ('T', ('a',))); tail = ('Q', e, 0, ('T', ('a',)))
+    elif tailkind == 'overlap':
+        # C_1 owns product 30; A writes it too after the require: an overlapping write that must be diagnosed
+        p.generated = {30: (cs[0], 0)}
+        p.tasks[cs[0]] = ('W', 30, 0, ('k', 3), p.tasks[cs[0]])
+        tail = ('W', 30, 0, ('k', 4), ('T', ('a',)))
+        p.kind = 'inject'
+    elif tailkind == 'cycle':
+        bk = tid; tid += 1
+        p.tasks[bk] = ('Q', 0, 0, ('T', ('a',))); tail = ('Q', bk, 0, ('T', ('a',)))
+        p.kind = 'inject'
+    p.tasks[0] = ('R', 0, 0, ('I', ('l', 2), ('Q', 1, (0 if rng.random() < 0.85 else 2), tail), ('T', ('k', 5))))
     # an independent scheduled chain M -> L (... -> L'), unrelated to B: it sits in the queue while B's dependencies are pulled out of it
     chain = []
     extra_srcs = []
@@ -614,7 +634,7 @@ def gen_newreq_program(rng):
             nxt = ('Q', ids[j + 1], 0, ('T', ('a',))) if j + 1 < n else ('T', ('a',))
             p.tasks[c] = ('R', src, 0, nxt)
         chain = ids
-    steps = [['E', str(i), '0'] for i in range(k + 1)] + [['E', str(x), '0'] for x in extra_srcs]
+    steps = [['E', str(i), '0'] for i in range(k + 1)] + [['E', str(x), '0'] for x in extra_srcs] + ([['E', '40', '7']] if 40 in p.sources else [])
     if shared is not None: steps.append(['E', str(shared), '3'])
     first = [['S', '1', 'q', '0'], ['S', '1', 'q', '1']] + ([['S', '1', 'q', str(chain[0])]] if chain else [])
     rng.shuffle(first)
@@ -721,6 +741,45 @@ def gen_same_session_program(rng):
     p.generated = {g: (None, 0)}
     steps = [['E', '0', str(rng.randint(0, 3))], ['E', str(g), '5'], ['Z', '2', 'q', '0', 'q', str(second)]]
     return p, steps, {'impl_only': True}
+
+
+def gen_mid_session_program(rng):
+    """Directed family for C03 (implementation only: the model's edits happen between sessions): resources whose content lives
+    OUTSIDE the Pie instance (ids >= 50, like files) change while a Session is alive -- after a top-down require or a first
+    bottom-up build of that session made tasks consistent -- and the change is then reported to a bottom-up build of the SAME
+    session.  The bottom-up build must still bring every known task up to date."""
+    p = Prog(); p.kind = 'wf'; p.exact_only = True
+    n = rng.randint(2, 4)
+    p.sources = [50 + i for i in range(n)]
+    # leaf tasks read one external source each; inner tasks require leaves / inner tasks
+    tid = 0
+    leaves = []
+    for i in range(n):
+        p.tasks[tid] = ('R', 50 + i, 0, ('T', ('a',))); leaves.append(tid); tid += 1
+    tops = []
+    for _ in range(rng.randint(1, 3)):
+        body = ('T', ('a',))
+        for x in rng.sample(leaves + tops, rng.randint(1, min(3, len(leaves + tops)))):
+            body = ('Q', x, 0, body)
+        p.tasks[tid] = body; tops.append(tid); tid += 1
+    steps = [['E', str(50 + i), '1'] for i in range(n)]
+    roots = rng.sample(tops + leaves, rng.randint(1, len(tops)))
+    first = sum((['q', str(t)] for t in roots), [])
+    ch = rng.sample(range(n), rng.randint(1, n))
+    edits = sum((['e', str(50 + i), str(rng.randint(2, 5))] for i in ch), [])
+    if rng.random() < 0.5:
+        sess = first + edits + ['b', str(len(ch))] + [str(50 + i) for i in ch]
+        nops = len(roots) + len(ch) + 1
+    else:       # a first bottom-up build (nothing changed) instead of the requires, then the change and a second build
+        steps.append(['S', str(len(roots))] + first)
+        sess = ['b', '0'] + edits + ['b', str(len(ch))] + [str(50 + i) for i in ch]
+        nops = 1 + len(ch) + 1
+    bu = len(steps)
+    steps.append(['S', str(nops)] + sess)
+    allt = sorted(p.tasks)
+    probe = len(steps)
+    steps.append(['S', str(len(allt))] + sum((['q', str(t)] for t in allt), []))
+    return p, steps, {'bu': {bu}, 'probe': {probe: bu}}
 
 
 def gen_sibling_program(rng):
